@@ -312,10 +312,11 @@ let run (path : string) : unit =
               count "write_buffer_permuted"
             end
           end
-      | [ "M"; now ] ->
+      | [ "M"; now; adj ] ->
           if !maint then begin
             refresh_exps ();
-            let (((m', expired), ev_tasks), evicted) = M.m_maintenance hashf cur !rnd (z now) !ms in
+            if adj <> "0" then count "maintenance_with_climber_amount";
+            let (((m', expired), ev_tasks), evicted) = M.m_maintenance hashf cur !rnd (z now) (z adj) !ms in
             ms := m';
             count "maintenance_replayed";
             let expect cs ids =
